@@ -5,7 +5,10 @@ import (
 	"encoding/json"
 	"errors"
 	"fmt"
+	"math"
+	"runtime"
 	"sync"
+	"sync/atomic"
 	"time"
 
 	"github.com/hprose/hprose-golang/v3/rpc/core"
@@ -25,8 +28,9 @@ func init() { drivers["c20"] = runC20 }
 type c20Case struct {
 	Threshold int      `json:"threshold"`
 	Mock      bool     `json:"mock"`
-	Recovery  string   `json:"recovery"` // "inf" | "zero" | "real"
-	Ops       []string `json:"ops"`      // "ok" | "err" | "panic" | "wait" | "half" | "slowB" | "slowE:err" | "slowE:ok"
+	Recovery  string   `json:"recovery"`        // "inf" | "zero" | "real" | "max"
+	Burst     int      `json:"burst,omitempty"` // > 0: rounds of threshold+1 calls that fail at the same instant
+	Ops       []string `json:"ops"`             // "ok" | "err" | "panic" | "wait" | "half" | "slowB" | "slowE:err" | "slowE:ok"
 }
 
 const c20RealRecovery = 60 * time.Millisecond
@@ -36,6 +40,8 @@ func c20Run(t *tr.Writer, id int, c c20Case) {
 	switch c.Recovery {
 	case "inf":
 		rec = time.Hour
+	case "max": // the largest duration there is: "never recovers" as an application would write it
+		rec = time.Duration(math.MaxInt64)
 	case "zero":
 		rec = time.Nanosecond
 	default:
@@ -193,6 +199,93 @@ func c20Run(t *tr.Writer, id int, c c20Case) {
 	}
 }
 
+// c20Burst: concurrent callers. Rounds of threshold+1 forwarded calls that fail at the same instant (a
+// barrier below the breaker releases them together) on a fresh breaker, then a probe call: more than
+// threshold consecutive failures have happened, the recovery time (1 h) has not passed, so the probe
+// must be refused without reaching the downstream handler. The first rounds and every round in which
+// the probe got through are written out as cases of their own (slowB x n, slowE x n, call); the total
+// is one more case.
+func c20Burst(t *tr.Writer, id *int, c c20Case) (rounds, leaks int) {
+	n := c.Threshold + 1
+	written := 0
+	for r := 0; r < c.Burst; r++ {
+		cb := circuitbreaker.New(circuitbreaker.WithThreshold(uint64(c.Threshold)), circuitbreaker.WithRecoverTime(time.Hour))
+		client := core.NewClient("verif://cb")
+		var arrived, probes int32
+		var phase int32 = 1
+		client.Use(cb, core.IOHandler(func(ctx context.Context, request []byte, next core.NextIOHandler) ([]byte, error) {
+			if atomic.LoadInt32(&phase) == 2 {
+				atomic.AddInt32(&probes, 1)
+				return []byte(`Rs2"ok"z`), nil
+			}
+			atomic.AddInt32(&arrived, 1)
+			for spin := 0; atomic.LoadInt32(&arrived) < int32(n); spin++ {
+				if spin > 50000000 {
+					break
+				}
+				if spin%64 == 63 {
+					runtime.Gosched()
+				}
+			}
+			return nil, errors.New("scripted-error")
+		}))
+		res := make([]string, n)
+		var wg sync.WaitGroup
+		for g := 0; g < n; g++ {
+			wg.Add(1)
+			go func(g int) {
+				defer wg.Done()
+				_, err := client.Invoke("f", nil)
+				switch {
+				case err == nil:
+					res[g] = "ok"
+				case err == circuitbreaker.ErrBreaker:
+					res[g] = "break"
+				case err.Error() == "scripted-error":
+					res[g] = "err"
+				default:
+					res[g] = "other:" + err.Error()
+				}
+			}(g)
+		}
+		wg.Wait()
+		atomic.StoreInt32(&phase, 2)
+		pres, perr := client.Invoke("f", nil)
+		out := "?"
+		switch {
+		case perr == circuitbreaker.ErrBreaker:
+			out = "break"
+		case perr == nil && len(pres) == 1 && pres[0] == "ok":
+			out = "ok"
+		case perr != nil:
+			out = "other:" + perr.Error()
+		}
+		fwd := atomic.LoadInt32(&probes) > 0
+		rounds++
+		if fwd {
+			leaks++
+		}
+		if r < 10 || (fwd && written < 15) {
+			written++
+			*id++
+			cc := c
+			cc.Burst = 1
+			t.Reset(*id, tr.Rec{"threshold": c.Threshold, "mock": false, "recovery": "inf", "input": cc})
+			for g := 0; g < n; g++ {
+				t.Emit(tr.Rec{"ev": "slowB", "fwd": true})
+			}
+			for g := 0; g < n; g++ {
+				t.Emit(tr.Rec{"ev": "slowE", "o": "err", "res": res[g]})
+			}
+			t.Emit(tr.Rec{"ev": "call", "o": "ok", "el": "no", "fwd": fwd, "res": out, "count": int(atomic.LoadInt32(&probes))})
+		}
+	}
+	*id++
+	t.Reset(*id, tr.Rec{"threshold": c.Threshold, "mock": false, "recovery": "inf", "input": c})
+	t.Emit(tr.Rec{"ev": "burst", "rounds": rounds, "leaks": leaks})
+	return
+}
+
 func runC20(a Args) tr.Summary {
 	t := tr.New(a.Out)
 	defer t.Close()
@@ -202,7 +295,12 @@ func runC20(a Args) tr.Summary {
 		if err := json.Unmarshal([]byte(a.Only), &c); err != nil {
 			panic(err)
 		}
-		c20Run(t, 1, c)
+		if c.Burst > 0 {
+			one := 0
+			c20Burst(t, &one, c)
+		} else {
+			c20Run(t, 1, c)
+		}
 		sum.Cases, sum.Events = t.Cases, t.Lines
 		return sum
 	}
@@ -225,11 +323,11 @@ func runC20(a Args) tr.Summary {
 	}
 	for th := 0; th <= 3; th++ {
 		for _, mock := range []bool{false, true} {
-			for _, recv := range []string{"inf", "zero"} {
+			for _, recv := range []string{"inf", "zero", "max"} {
 				for n := 1; n <= maxLen; n++ {
 					gen(nil, n, func(ops []string) {
 						id++
-						c := c20Case{th, mock, recv, ops}
+						c := c20Case{th, mock, recv, 0, ops}
 						c20Run(t, id, c)
 						nf := 0
 						for _, o := range ops {
@@ -247,6 +345,16 @@ func runC20(a Args) tr.Summary {
 				}
 			}
 		}
+	}
+	// concurrent callers: failures at the same instant
+	nBurst := 4000
+	if a.Tier == "thorough" {
+		nBurst = 40000
+	}
+	burstRounds := 0
+	for th := 0; th <= 3; th++ {
+		r, _ := c20Burst(t, &id, c20Case{Threshold: th, Recovery: "inf", Burst: nBurst})
+		burstRounds += r
 	}
 	// real recovery time: seeded sequences with waits (bounded because every wait costs real time)
 	rng := tr.NewRng(a.Seed)
@@ -304,7 +412,7 @@ func runC20(a Args) tr.Summary {
 			ops = scripted[i-nReal]
 			th, mock = (i-nReal)/3%3, i%2 == 0
 		}
-		c := c20Case{th, mock, "real", ops}
+		c := c20Case{th, mock, "real", 0, ops}
 		idmu.Lock()
 		id++
 		myid := id
